@@ -368,6 +368,9 @@ def c20_scope(tier):
     P.append(("merge-out", 'Signal a = ("signal-A", 1);\nSignal b = ("signal-A", 2);\nSignal r = a + b;\n'))
     P.append(("func-out", 'func f(Signal a) { return a * 2 + 1; }\n' + X + "Signal r = f(x);\nSignal q = f(y);\n"))
     P.append(("bundle-out", 'Bundle b = { ("signal-A", 20), ("signal-B", 5) };\nBundle r = b * 2;\nSignal s = b["signal-A"] + 1;\n'))
+    P.append(("named-then-anonymous-twin", X + "Signal s1 = x + y;\nSignal s2 = (x + y) * 2;\nSignal d1 = x > y;\nSignal d2 = (x > y) + 5;\n"))
+    P.append(("alias-named-like-param", 'func f(Signal v, Signal total) { return v * 2 + total; }\n' + X + 'Signal k = ("signal-C", 42);\n'
+              "Signal c = x + 1;\nSignal v = c;\nSignal total = k;\nSignal r = f(c, y);\n"))
     P.append(("consumed-by-entity", X + 'Signal c = x > 3;\nEntity l = place("small-lamp", 0, 0);\nl.enable = c;\nSignal r = y + 1;\n'))
     return P
 
